@@ -534,3 +534,177 @@ func bigNames(f *sfnt.Font) {
 	f.SampleText += " " + strings.Repeat("The quick brown fox jumps over the lazy dog. ", 16)
 	f.License += " " + strings.Repeat("Permission is hereby granted, free of charge. ", 30)
 }
+
+// ---------------------------------------------------------------------------
+// CFF stem hints at the limits of the operand stack
+
+// stemHints replaces one glyph of a CFF font by a square with c.HCnt stem pairs in direction c.HDir and
+// c.OCnt pairs in the other direction.  With c.HWidth its width differs from all other widths (which are made
+// equal, so that they are the default width and only this glyph carries a width operand); without, all widths
+// are equal.  With c.HMask the glyph starts with a hintmask and has a second one between its sub-paths.
+func stemHints(f *sfnt.Font, c Cfg) {
+	out, ok := f.Outlines.(*cff.Outlines)
+	if !ok || c.HCnt == 0 {
+		return
+	}
+	k := 2
+	if k >= len(out.Glyphs) {
+		k = len(out.Glyphs) - 1
+	}
+	for _, g := range out.Glyphs {
+		g.Width = 600
+	}
+	g := cff.NewGlyph(out.Glyphs[k].Name, 600)
+	if c.HWidth {
+		g.Width = 777
+	}
+	stems := func(n int) []float64 {
+		var s []float64
+		for i := 0; i < n; i++ {
+			s = append(s, float64(20*i), float64(20*i+8))
+		}
+		return s
+	}
+	if c.HDir == "v" {
+		g.VStem, g.HStem = stems(c.HCnt), stems(c.OCnt)
+	} else {
+		g.HStem, g.VStem = stems(c.HCnt), stems(c.OCnt)
+	}
+	mask := func(seed int) cff.GlyphOp {
+		n := c.HCnt + c.OCnt
+		op := cff.GlyphOp{Op: cff.OpHintMask}
+		for i := 0; i < (n+7)/8; i++ {
+			b := byte(0xFF)
+			if i%2 == seed%2 {
+				b = 0xA5
+			}
+			if i == (n+7)/8-1 && n%8 != 0 {
+				b &= byte(0xFF) << (8 - n%8) // only bits that denote stems
+			}
+			op.Args = append(op.Args, float64(b))
+		}
+		return op
+	}
+	if c.HMask {
+		g.Cmds = append(g.Cmds, mask(0))
+	}
+	g.MoveTo(0, 0)
+	g.LineTo(500, 0)
+	g.LineTo(500, 500)
+	g.LineTo(0, 500)
+	if c.HMask {
+		g.Cmds = append(g.Cmds, mask(1))
+	}
+	g.MoveTo(100, 100)
+	g.LineTo(100, 400)
+	g.LineTo(400, 400)
+	out.Glyphs[k] = g
+}
+
+// ---------------------------------------------------------------------------
+// class definition and coverage tables, enumerated structurally
+
+// classTables uses the class definition table c.CTab (class of glyph 10+i) everywhere a class definition table
+// occurs: GDEF glyph classes and mark attachment classes, a class-based context and a class-based chained context
+// substitution, a class-based pair adjustment.  The tables replace GDEF and are added to GSUB and GPOS.
+func classTables(f *sfnt.Font, c Cfg, total int) {
+	if len(c.CTab) == 0 {
+		return
+	}
+	if total < 10+len(c.CTab) {
+		vio.Fatal("class tables need at least 10+span glyphs")
+	}
+	ct := func() classdef.Table {
+		t := classdef.Table{}
+		for i, cl := range c.CTab {
+			if cl != 0 {
+				t[glyph.ID(10+i)] = uint16(cl)
+			}
+		}
+		return t
+	}
+	ncls := ct().NumClasses()
+	var covered []glyph.ID
+	for i := range c.CTab {
+		covered = append(covered, glyph.ID(10+i))
+	}
+	f.Gdef = &gdef.Table{GlyphClass: ct(), MarkAttachClass: ct(),
+		MarkGlyphSets: []coverage.Set{{glyph.ID(10): true, glyph.ID(12): true}}}
+
+	single := &gtab.LookupTable{Meta: &gtab.LookupMetaInfo{LookupType: 1},
+		Subtables: []gtab.Subtable{&gtab.Gsub1_1{Cov: covSet(covered), Delta: 1}}}
+	ctx := &gtab.SeqContext2{Cov: covTable(covered), Input: ct()}
+	cctx := &gtab.ChainedSeqContext2{Cov: covTable(covered), Backtrack: ct(), Input: ct(), Lookahead: ct()}
+	for cl := 0; cl < ncls; cl++ {
+		ctx.Rules = append(ctx.Rules, []*gtab.ClassSeqRule{
+			{Input: []uint16{uint16((cl + 1) % ncls)}, Actions: []gtab.SeqLookup{{SequenceIndex: 0, LookupListIndex: 0}}},
+			{Input: []uint16{uint16(cl), 0}, Actions: []gtab.SeqLookup{{SequenceIndex: 1, LookupListIndex: 0}}},
+		})
+		cctx.Rules = append(cctx.Rules, []*gtab.ChainedClassSeqRule{
+			{Backtrack: []uint16{uint16(cl)}, Input: []uint16{uint16((cl + 1) % ncls)}, Lookahead: []uint16{0, uint16(ncls - 1)},
+				Actions: []gtab.SeqLookup{{SequenceIndex: 0, LookupListIndex: 0}}},
+		})
+	}
+	f.Gsub = &gtab.Info{
+		ScriptList:  gtab.ScriptListInfo{normalTag("und-Latn-x-latn"): {Required: 0xFFFF, Optional: []gtab.FeatureIndex{0}}},
+		FeatureList: gtab.FeatureListInfo{{Tag: "calt", Lookups: []gtab.LookupIndex{1, 2}}},
+		LookupList: gtab.LookupList{single,
+			{Meta: &gtab.LookupMetaInfo{LookupType: 5}, Subtables: []gtab.Subtable{ctx}},
+			{Meta: &gtab.LookupMetaInfo{LookupType: 6}, Subtables: []gtab.Subtable{cctx}}},
+	}
+
+	pair := &gtab.Gpos2_2{Cov: covSet(covered), Class1: ct(), Class2: ct()}
+	for a := 0; a < ncls; a++ {
+		var row []*gtab.PairAdjust
+		for b := 0; b < ncls; b++ {
+			row = append(row, &gtab.PairAdjust{First: &gtab.GposValueRecord{XAdvance: funit.Int16(-10*a - b - 1)}})
+		}
+		pair.Adjust = append(pair.Adjust, row)
+	}
+	f.Gpos = &gtab.Info{
+		ScriptList:  gtab.ScriptListInfo{normalTag("und-Latn-x-latn"): {Required: 0xFFFF, Optional: []gtab.FeatureIndex{0}}},
+		FeatureList: gtab.FeatureListInfo{{Tag: "kern", Lookups: []gtab.LookupIndex{0}}},
+		LookupList:  gtab.LookupList{{Meta: &gtab.LookupMetaInfo{LookupType: 2}, Subtables: []gtab.Subtable{pair}}},
+	}
+}
+
+// coverageTables uses the coverage table c.Cov (glyph ids) everywhere a coverage table occurs on its own:
+// single substitutions of both formats, a coverage-based context substitution, a single adjustment, a mark
+// glyph set.
+func coverageTables(f *sfnt.Font, c Cfg, total int) {
+	if len(c.Cov) == 0 {
+		return
+	}
+	var gids []glyph.ID
+	for _, g := range c.Cov {
+		if g >= total {
+			vio.Fatal("coverage tables need at least 8 glyphs")
+		}
+		gids = append(gids, glyph.ID(g))
+	}
+	s12 := &gtab.Gsub1_2{Cov: covTable(gids)}
+	for i := range gids {
+		s12.SubstituteGlyphIDs = append(s12.SubstituteGlyphIDs, glyph.ID(8+i))
+	}
+	ctx := &gtab.SeqContext3{Input: []coverage.Set{covSet(gids), covSet(gids[:1]), covSet(gids[len(gids)-1:])},
+		Actions: []gtab.SeqLookup{{SequenceIndex: 0, LookupListIndex: 0}}}
+	f.Gsub = &gtab.Info{
+		ScriptList:  gtab.ScriptListInfo{normalTag("und-Latn-x-latn"): {Required: 0xFFFF, Optional: []gtab.FeatureIndex{0}}},
+		FeatureList: gtab.FeatureListInfo{{Tag: "calt", Lookups: []gtab.LookupIndex{0, 1, 2}}},
+		LookupList: gtab.LookupList{
+			{Meta: &gtab.LookupMetaInfo{LookupType: 1}, Subtables: []gtab.Subtable{&gtab.Gsub1_1{Cov: covSet(gids), Delta: 3}}},
+			{Meta: &gtab.LookupMetaInfo{LookupType: 1}, Subtables: []gtab.Subtable{s12}},
+			{Meta: &gtab.LookupMetaInfo{LookupType: 5}, Subtables: []gtab.Subtable{ctx}}},
+	}
+	f.Gpos = &gtab.Info{
+		ScriptList:  gtab.ScriptListInfo{normalTag("und-Latn-x-latn"): {Required: 0xFFFF, Optional: []gtab.FeatureIndex{0}}},
+		FeatureList: gtab.FeatureListInfo{{Tag: "cpsp", Lookups: []gtab.LookupIndex{0}}},
+		LookupList: gtab.LookupList{{Meta: &gtab.LookupMetaInfo{LookupType: 1}, Subtables: []gtab.Subtable{
+			&gtab.Gpos1_1{Cov: covTable(gids), Adjust: &gtab.GposValueRecord{XAdvance: 12}}}}},
+	}
+	gc := classdef.Table{}
+	for _, g := range gids {
+		gc[g] = gdef.GlyphClassMark
+	}
+	f.Gdef = &gdef.Table{GlyphClass: gc, MarkGlyphSets: []coverage.Set{covSet(gids), covSet(gids[:1])}}
+}
